@@ -1797,7 +1797,15 @@ class PrepareAst:
                     default_body is None
                 ), "default branch must be last branch of match statement"
 
+                assert (
+                    case.guard is None
+                ), "guards are not supported in match statements"
+
                 if isinstance(case.pattern, ast.MatchAs):
+                    assert (
+                        case.pattern.pattern is None and case.pattern.name is None
+                    ), "only the wildcard '_' is supported as default pattern of match statements"
+
                     default_body = cast(out.CodeBlock, self.apply(case.body))
                     break
                 if isinstance(case.pattern, ast.MatchValue):
